@@ -5,6 +5,7 @@ INVARIANT Neutral
 INVARIANT AndBindsTighter
 INVARIANT Occurs
 INVARIANT Groups
+INVARIANT ChainDocumented
 INVARIANT Balanced
 INVARIANT NoBlankBeforeBracket
 INVARIANT NoF9Shape
